@@ -39,7 +39,7 @@ func init() {
 			"in-memory net.Conn (netsim) stands in for TCP: writes are atomic per call, reads fragment per script",
 			"one sending goroutine per registered (protocol, role) stream defines per-protocol send order",
 		},
-		QuickTimeout: 600,
+		QuickTimeout: 1800,
 		Run:          run,
 	})
 }
